@@ -223,8 +223,8 @@ func e1Preamble(e *Env, rule string) *e1Model {
 	r.Count("event nodes of the group fragment automaton", len(m.fragG.Nodes))
 	r.Count("emission instances (group fragment)", len(m.frag.Emits))
 	r.Count("policy-level variants (arch x jump form)", len(m.wholes))
-	r.Floor("E1(emitter functions)", len(m.b.Emitters()), 9)
-	r.Floor("E1(emission instances)", len(m.frag.Emits), 60)
+	r.Floor("E1(emitter functions)", len(m.b.Emitters()), 4)
+	r.Floor("E1(emission instances)", len(m.frag.Emits), 20)
 	r.Floor("E1(variants)", len(m.wholes), 4)
 	return m
 }
@@ -344,8 +344,8 @@ func runC01(e *Env) {
 		r.Check(endsDefault, "E1.spine", "Policy.Assemble/spine-ends-in-default/"+name, "", "the no-match spine ends in the default return", "the no-match spine never reaches a default return")
 		nAcc += c.checkAcc("E1.acc", func(cl instClass) bool { return cl.Operand == "nr" })
 	}
-	r.Floor("E1.entry(entry instances)", nEntries, 8)
-	r.Floor("E1.acc(number comparisons)", nAcc, 8)
+	r.Floor("E1.entry(entry instances)", nEntries, 2)
+	r.Floor("E1.acc(number comparisons)", nAcc, 2)
 }
 
 func inCondSuffix(n *emit.WNode) string {
@@ -734,7 +734,7 @@ func checkNumOrigin(e *Env, m *e1Model) {
 			}
 		}
 	}
-	r.Floor("E1.num(stores to SyscallWithConditions.Num)", n, 2)
+	r.Floor("E1.num(stores to SyscallWithConditions.Num)", n, 1)
 }
 
 // checkRetContract: the return builder emits Val = uint32(a) with a = action | EPERM iff action == ActionErrno.
@@ -839,7 +839,7 @@ func checkRetLiterals(e *Env, m *e1Model, rule string) {
 			}
 		}
 	}
-	r.Floor(rule+"(return literals)", n, 2)
+	r.Floor(rule+"(return literals)", n, 1)
 }
 
 // condsOfEdge: conditions established by b's own dominating branch when b is a branch arm.
@@ -1005,7 +1005,7 @@ func runC02(e *Env) {
 	nAcc := c.checkAcc("E1.acc", func(cl instClass) bool {
 		return strings.HasPrefix(cl.Operand, "hi:") || strings.HasPrefix(cl.Operand, "lo:")
 	})
-	r.Floor("E1.acc(word comparisons)", nAcc, 64)
+	r.Floor("E1.acc(word comparisons)", nAcc, 32)
 	checkWordOffsets(e, m)
 	checkEndianDetect(e, m)
 }
